@@ -31,8 +31,9 @@
 (* number including 0, or unset).                                          *)
 (*                                                                         *)
 (* The model says what the code DOES (Listing = "sorted": the listing is   *)
-(* passed through sorted(); Guess = "set": the guessed project name joins  *)
-(* the set in iteration order).  The property is a hyper-property: for one *)
+(* passed through sorted(); the guessed project name joins the roots in    *)
+(* command line order, fix 2ce009d; the member tables are numbered from 1  *)
+(* in every run, fix 30089c6 - both stated unconditionally).  The property is a hyper-property: for one *)
 (* input the terminal output must not depend on any environment choice.    *)
 (* It is checked with one TLC register per project (DESIGN.md App. C "Hy").*)
 (*                                                                         *)
@@ -49,12 +50,8 @@ EXTENDS Naturals, Sequences, FiniteSets, TLC, Json, IOUtils, SequencesExt
 
 CONSTANTS MaxRoots,   \* enumeration bound on the number of roots on the command line
           Source,     \* "enum" | "file"
-          Guess,      \* "set"    : name = '/'.join(system.root_names)              (driver.py:75)
-                      \* "rootobjects" : name joined in command line order (the proposed fix)
           PermuteUpTo,\* listing orders other than the sorted one are explored for inputs with at most this many roots
           ReuseUpTo,  \* the reused output directory is explored for inputs with at most this many roots
-          TableIds,   \* "process_counter" : the ids of the member tables continue where the previous run of the
-                      \*            process stopped (table.py:62,74)  |  "per_run" : they start again in every run
           SameProcUpTo,\* a run after another run in the same process is explored for inputs with at most this many roots
           EpochRule,  \* "is_set" : SOURCE_DATE_EPOCH fixes the build time whenever the variable exists,
                       \*            whatever its number (driver.py:39-45: int(os.environ[...]), except KeyError)
@@ -121,7 +118,8 @@ vars == <<pid, u, roots, named, var, clock, phase, pc, nroot, stack, mods, setOr
 \* driver.get_system (driver.py:36-45)
 EpochFixes(v) == v.epochset /\ (EpochRule = "is_set" \/ v.epoch # 0)
 \* number of the first member table of this run (0 = they start at id1)
-IdBase == IF TableIds = "process_counter" /\ outdir = "sameproc" THEN 1 ELSE 0
+\* TemplateWriter.writeIndividualFiles resets ChildTable.last_id: whatever the process did before (outdir = "sameproc")
+IdBase == 0
 BuildTime == IF EpochFixes(var) THEN <<0, var.epoch>> ELSE <<1, clock>>     \* <<1, c>>: now()
 
 RootRec(r) == CHOOSE x \in Rng(u.roots) : x.id = r
@@ -228,7 +226,7 @@ GuessName ==
   /\ \E so \in SetChoices, sp \in SiteChoices(1) :
        /\ setOrder' = so
        /\ siteOrder' = sp
-       /\ projname' = IF named THEN <<0>> ELSE IF Guess = "set" THEN so ELSE roots
+       /\ projname' = IF named THEN <<0>> ELSE roots      \* '/'.join over system.rootobjects (driver.py:76)
   /\ pc' = "write"
   /\ UNCHANGED <<pid, u, roots, named, var, clock, phase, nroot, stack, mods, listing, outdir, out>>
 
